@@ -244,7 +244,10 @@ class World:
         for name, kind in rng.sample(plist, rng.choice([1, min(2, len(plist))])):
             q = rng.random()
             prop = {'double': ('max', 5.0), 'int': ('max', 5), 'scaled': ('unit', 'V'), 'string': ('maxchars', 3), 'array': ('maxlen', 2)}.get(kind)
-            if q < 0.4 or prop is None:
+            bare = {'double': 2.5, 'int': 3, 'string': 'b', 'bool': False}.get(kind)
+            if bare is not None and rng.random() < 0.3:
+                ns[name] = bare          # a preset: the mixin overrides the default by a bare value
+            elif q < 0.4 or prop is None:
                 ns[name] = C.Parameter(readonly=rng.random() < 0.5)
             elif q < 0.8:
                 ns[name] = C.Parameter(**{prop[0]: prop[1]})
@@ -352,9 +355,20 @@ class World:
 
         self.enum_table.clear()
         self.enum_table.update(a=1, b=2, c=3)
+        pmixin_box = [None, None]
 
         def frame(step, target):
             """everything but the target must be unchanged; the target is (re)recorded"""
+            if pmixin_box and pmixin_box[0] is not None:
+                # the plain mixin class is part of the frame too: using it changes nothing in it
+                now_ = {k_: type(v_).__name__ + ':' + repr(v_)[:60] for k_, v_ in vars(pmixin_box[0]).items() if not k_.startswith('__')}
+                if pmixin_box[1] is None:
+                    pmixin_box[1] = now_
+                elif pmixin_box[1] != now_:
+                    ch_ = [k_ for k_ in now_ if now_[k_] != pmixin_box[1].get(k_)]
+                    r.violation(f'C09/frame/{step[0]}-changes-the-plain-mixin', f'step {step}: attributes {ch_[:3]} of the plain mixin class went from '
+                                f'{[pmixin_box[1].get(k_) for k_ in ch_[:2]]} to {[now_[k_] for k_ in ch_[:2]]}', {'program': log})
+                    return False
             r.count('frame_checks_on_the_shared_member_table')
             if self.enum_table != {'a': 1, 'b': 2, 'c': 3}:
                 r.violation(f'C09/frame/{step[0]}-changes-the-member-table-of-the-caller', f'step {step}: the dict passed as members= to EnumType is now {self.enum_table}',
@@ -381,6 +395,7 @@ class World:
             return
         mixin = self.new_mixin() if rng.random() < 0.4 else None
         pmixin = self.new_plain_mixin(plist) if rng.random() < 0.5 else None
+        pmixin_box[0] = pmixin
         nsteps = rng.randint(8, 22)
         nsub = 0
         kinds_used = set()
